@@ -351,6 +351,50 @@ func runT[T comparable](w *core.Worker, c Case) {
 			want := refUnique(mapS(flat(c.Nest), f))
 			if err != nil || !eq(got, want) {
 				fail("result", "Union(%s) = (%v, %v) want %v", core.JSON(c.Nest), got, err, want)
+				return
+			}
+			// the same nesting with every typed leaf being a window of ONE backing array (each window
+			// keeps the array's remaining capacity, as base[:2] does): same result, and the array intact
+			total := 0
+			var cnt func(n *Nest)
+			cnt = func(n *Nest) {
+				if n.IsT {
+					total += len(n.Ints)
+				}
+				for i := range n.Kids {
+					cnt(&n.Kids[i])
+				}
+			}
+			cnt(c.Nest)
+			if total >= 2 {
+				arena := make([]T, 0, total)
+				var ba func(n *Nest) any
+				ba = func(n *Nest) any {
+					switch {
+					case n.Leaf != nil:
+						return f(*n.Leaf)
+					case n.IsT:
+						off := len(arena)
+						arena = append(arena, mapS(n.Ints, f)...)
+						return arena[off:len(arena)] // capacity runs on into the later leaves
+					}
+					out := make([]any, 0, len(n.Kids))
+					for i := range n.Kids {
+						out = append(out, ba(&n.Kids[i]))
+					}
+					return out
+				}
+				arg2 := ba(c.Nest)
+				snap := append([]T{}, arena...)
+				got2, err2 := gogu.Union[T](arg2)
+				if err2 != nil || !eq(got2, want) {
+					fail("result-leaves-share-one-array", "Union(%s) with all typed leaves being windows of one array = (%v, %v) want %v", core.JSON(c.Nest), got2, err2, want)
+					return
+				}
+				if !eq(arena, snap) {
+					fail("leaves-overwritten", "Union(%s): the backing array shared by the leaves was %v, now %v", core.JSON(c.Nest), snap, arena)
+					return
+				}
 			}
 			nontrivial = len(flat(c.Nest)) >= 2
 		default:
@@ -569,11 +613,14 @@ func TestProp(t *testing.T) {
 			if i%8 == 7 && fn != "Union" {
 				// large inputs: tens to hundreds of distinct values, every one of them repeated later
 				// (size thresholds at which an implementation may switch its strategy)
-				rv = []int{18, 40, 130, 600}[rng.Intn(4)]
+				rv = []int{18, 40, 130, 600, 2, 3}[rng.Intn(6)]
 				big := func() []int {
 					n := rng.Range(rv, 3*rv)
 					if n > 400 {
 						n = 400
+					}
+					if rv <= 3 { // few values, each repeated hundreds of times (counters that might wrap)
+						n = rng.Range(250, 1100)
 					}
 					s := make([]int, n)
 					for j := range s {
